@@ -495,6 +495,20 @@ impl OrdSpecImpl for Version { open spec fn obeys_cmp_spec() -> bool { true } op
                                        hint=K.desugar_hint_le(prim_m.param) if op == 'LessThanEquals' else K.DESUGAR_HINT, head='use Operation::*;\n'))
         g.unit('primitive_desugar_' + op, u_prim)
 
+    # the clause grids as one relation per form, and one more instance of each closure body proved against it (used by the whole
+    # comparator functions below: there the closure body is replaced by a call to this instance -- same text, R5)
+    g.emit('m_desugar', K.comparator_posts())
+    WHOLE = {'partial': ('Partial', 'partial_post', 'wf_partial($P)', K.DESUGAR_HINT, ''), 'caret': ('Partial', 'caret_post', 'wf_partial($P)', K.DESUGAR_HINT, ''),
+             'tilde': ('(Option<&str>, Partial)', 'tilde_post', 'wf_partial($P.1)', K.DESUGAR_HINT, ''),
+             'primitive': ('(Operation, Partial)', 'primitive_post', 'wf_partial($P.1)', None, 'use Operation::*;\n')}
+    for form, (ty, post, pre, hint, head) in WHOLE.items():
+        def u_whole(form=form, ty=ty, post=post, pre=pre, hint=hint, head=head):
+            sl = closure_match(RNG, form, None, 'closure in %s()' % form)
+            h = hint if hint is not None else K.desugar_hint_le(sl.param)
+            grid = ['    requires ' + pre.replace('$P', sl.param) + ',', '    ensures %s(%s, r),  // @%s#post' % (post, sl.param, form)]
+            g.emit('m_desugar', lifted(form + '_desugar_whole', '(%s: %s) -> (r: Option<BoundSet>)' % (sl.param, ty), grid, sl, hint=h, head=head))
+        g.unit(form + '_desugar_whole', u_whole)
+
     def u_hyphen():
         hyf = top_fn(RNG, 'hyphen').code
         mm = re.search(r'let (\w+) = opt\(partial_version\)\.parse_next\(input\)\?;.*?let (\w+) = partial_version\(input\)\?;\s*let \2 = match \2 \{.*?\n\s*Ok\((\w+)\)\s*\}', hyf, re.S)
@@ -661,6 +675,17 @@ impl OrdSpecImpl for Version { open spec fn obeys_cmp_spec() -> bool { true } op
                 raise AnchorLost('signature of grammar function %s' % n)
             body = f.verbatim[f.verbatim.index('{'):]
             lost = []
+            if d.get('comparator'):
+                # R5b: the closure body -- verified as `<form>_desugar_whole`, the same text lifted (R5) -- is replaced by a call to it
+                cm = closure_match(RNG, n, None, 'closure in %s()' % n)
+                c = K.COMPARATORS[n]
+                a, b2 = cm.start - f.start - f.verbatim.index('{'), cm.end - f.start - f.verbatim.index('{')
+                k0 = body.rfind('|' + cm.param + '|', 0, a)
+                if k0 < 0 or body[k0:a].strip() != '|%s|' % cm.param:
+                    raise AnchorLost('%s(): `|%s| match %s {..}`' % (n, cm.param, cm.param))
+                ann = "|%s: %s| -> (o: Option<BoundSet>) requires %s ensures %s { %s_desugar_whole(%s) }" % (cm.param, c['ty'], c['pre'].replace('x', cm.param), c['post'].replace('(x, o)', '(%s, o)' % cm.param), n, cm.param)
+                body = body[:k0] + ann + body[b2:]
+                f.rewrites.append('R5b closure body replaced by a call to %s_desugar_whole (the same text, lifted and proved against %s)' % (n, c['post'].split('(')[0]))
             for (a, b, why) in d['rewrites']:
                 if hasattr(a, 'sub'):
                     if not a.search(body):
